@@ -4,13 +4,16 @@
 //   kind 1: kll_sketch<double> fed integer values (plus NaN updates / NaN split points)
 //   kind 2: kll_sketch<std::string, std::greater<std::string>>: item v is stored as enc(-v) with enc an
 //           order-preserving fixed-width encoding, so that greater<string> on the stored items is < on v.
-// Only the public API is used (no private members are read).
+// Results (R lines) come from the public API only; the private min_k_ is read (macro below) for one F value of op 5, so that
+// the oracle can check that the published rank error is the documented function of min_k_.
 // Codec operations (family kllcodec, kinds 0 and 1 only): 20 r -> R = serialize() bytes, F = [stream form identical, advertised
 // size, size, header form ok, stream reader consumed exactly the image]; 21 r r2 -> r := deserialize(serialize(r2));
 // 22 r kind bytes.. -> r := deserialize(bytes).
 #include "common.hpp"
 #include "hooksrc.hpp"
+#define private public
 #include "kll_sketch.hpp"
+#undef private
 #include <cmath>
 #include <limits>
 #include <algorithm>
@@ -87,6 +90,11 @@ template<typename K> static void run_op(int op, Reg& reg, const Line& t, Out& o)
     for (auto& p : it) { o.R(p.first); o.R(p.second); }
     // advertised bound on the number of retained items (what get_max_serialized_size_bytes is computed from)
     o.F((I)kll_helper::compute_total_capacity(s.get_k(), kll_constants::DEFAULT_M, kll_helper::ub_on_num_levels(s.get_n())));
+    // published error (single- and double-sided), the private min_k_, and the documented function of that min_k_
+    o.Fd(s.get_normalized_rank_error(false)); o.Fd(s.get_normalized_rank_error(true));
+    o.F((I)s.min_k_);
+    o.Fd(S::get_normalized_rank_error(s.min_k_, false)); o.Fd(S::get_normalized_rank_error(s.min_k_, true));
+    o.F((I)s.get_k());
     break; }
   case 6: { // rank
     T x = K::enc(t.at(2));
